@@ -119,6 +119,7 @@ func main() {
 		seen: map[string]bool{}, cap: 50}
 	ctx := &Ctx{rep: rep, drv: drv, rng: rand.New(rand.NewSource(*seed)), quick: *tier != "thorough", scale: *scale}
 	t0 := time.Now()
+	runCorpus(ctx, *prop)
 	f(ctx)
 	rep.WallS = time.Since(t0).Seconds()
 	sort.Strings(rep.Notes)
